@@ -185,7 +185,7 @@ func (o *c06) deliver(nd *impNode, refs []*blockRef, how string) {
 	head := nd.chain().CurrentBlock()
 	r.Logf("  import %s %s%s -> err=%v head=%d", nd.name(), heights(refs), how, err, head.NumberU64())
 	if err != nil {
-		r.Report("import-rejected", "importer %q rejected honestly built block(s) %s%s (its head: %d): %v", nd.name(), heights(refs), how, head.NumberU64(), err)
+		r.Report(o.rejectClass(refs, strings.Contains(how, "side")), "importer %q rejected honestly built block(s) %s%s (its head: %d): %v", nd.name(), heights(refs), how, head.NumberU64(), err)
 		o.drop(nd)
 		return
 	}
@@ -477,7 +477,7 @@ func (o *c06) forkStep() {
 			}
 			r.Logf("  import %s %d alone as a side block -> err=%v head=%d", nd.name(), o.held[0].blk.NumberU64(), err, nd.chain().CurrentBlock().NumberU64())
 			if err != nil {
-				r.Report("import-rejected", "importer %q, whose canonical chain is a competing fork of length %d, rejected the honestly built block %d arriving as a side block: %v", nd.name(), o.forkLen, o.held[0].blk.NumberU64(), err)
+				r.Report(o.rejectClass(o.held[:1], true), "importer %q, whose canonical chain is a competing fork of length %d, rejected the honestly built block %d arriving as a side block: %v", nd.name(), o.forkLen, o.held[0].blk.NumberU64(), err)
 				o.drop(nd)
 			}
 		}
@@ -512,4 +512,32 @@ func runC06(r *kit.Run) {
 		defer o.stop()
 		s.runHistory(hooks{bias: 0, blocks: historyLen(r, 20, 45), beforeBuild: o.beforeBuild, onBuilt: o.onBuilt, atEnd: o.atEnd})
 	})
+}
+
+// rejectClass names a rejection by what the rejected delivery contains (judged from the blocks
+// alone, so that a known cause can be told from a new one): a side chain with slash data; a
+// side chain in which a staking transaction applied in one block is still pending when a later
+// block of the same delivery ends the staking period; anything else.
+func (o *c06) rejectClass(refs []*blockRef, side bool) string {
+	if !side {
+		return "import-rejected"
+	}
+	F := o.s.sc.F
+	for _, rf := range refs {
+		if len(rf.blk.Header().SlashData) > 0 {
+			return "side-chain-with-slash-data-rejected"
+		}
+	}
+	for j, rf := range refs {
+		n := rf.blk.NumberU64()
+		if (n+1)%F != 0 {
+			continue
+		}
+		for _, e := range refs[:j] {
+			if e.blk.NumberU64()/F == n/F && e.stakingApplied {
+				return "side-chain-ending-a-period-with-pending-staking-tx-rejected"
+			}
+		}
+	}
+	return "import-rejected"
 }
